@@ -5,7 +5,7 @@ import subprocess
 
 from .common import Check, read_keyed, ROOT
 
-KINDS = ("E ", "P ")
+KINDS = ("E ", "P ", "R ")
 
 
 def tokens_of(line):
@@ -18,6 +18,9 @@ def nontrivial(case_line, model_line):
     """E: at least one refusal and one accepted incoming segment; P: at least one message delivered."""
     f = case_line.split(" ")
     res = tokens_of(model_line)
+    if f[0] == "R":
+        # ring buffer: it was full at least once and something was popped
+        return any(r.split("@")[-1].split("/")[0].endswith("10") for r in res) and any(r.startswith("b") and len(r.split("@")[0]) > 1 for r in res)
     if f[0] == "E":
         ops = f[2:]
         acc = any(o.startswith("i:") and r.startswith("u@") for o, r in zip(ops, res))
@@ -97,13 +100,15 @@ def main(tier, replay=None):
     for key, sl in spec.items():
         sf = sl.split(" ")
         if len(sf) < 3 or sf[2] != "1":
-            step = 0
+            step, clause = 0, ""
             for t in sf[3:]:
                 if t.startswith("step="):
                     step = int(t[5:])
-            mon_viol.append((len(case_by_key[key]), key, step))
+                if t.startswith("clause="):
+                    clause = t[7:]
+            mon_viol.append((len(case_by_key[key]), key, step, clause))
     mon_viol.sort()
-    for _, key, step in mon_viol[:3]:
+    for _, key, step, clause in mon_viol[:3]:
         cl, il = case_by_key[key], impl[key]
         panicked = " P" in il.split(" | ")[0]
         if cl.startswith("E "):
@@ -113,11 +118,16 @@ def main(tier, replay=None):
                        "segments / a segment no receiver may accept was accepted"))
             name = "hostile-panic" if panicked else "hostile-integrity"
         else:
+            why = {"lost-ack": "an end forgot an acknowledgement it owes: its ack_level differs from the number of segments it "
+                               "has taken in since the last ACK it put on the wire (the peer's segments stay unacknowledged for good)",
+                   "window": "the window accounting is broken (in flight + unacknowledged <= outstanding <= window, "
+                             "in flight <= free receive window)",
+                   "refused-or-misdelivered": "a well-formed segment or step was refused, or a fetched message is not the next submitted one",
+                   }.get(clause, "a well-formed segment or step was refused / a fetched message is not the next submitted one / "
+                                 "the window accounting is broken / an acknowledgement was lost")
             what = ("property C18 fails on the implementation (two well-behaved ends back to back): "
-                    + ("the implementation panicked" if panicked else
-                       "a well-formed segment or step was refused / a fetched message is not the next submitted one / "
-                       "the window accounting (in flight + unacknowledged <= outstanding <= window, in flight <= free receive window) is broken"))
-            name = "pair-panic" if panicked else "pair-delivery-or-window"
+                    + ("the implementation panicked" if panicked else why))
+            name = "pair-panic" if panicked else ("pair-lost-ack" if clause == "lost-ack" else "pair-delivery-or-window")
         c.violation(name, "\n".join(
             [what, "first offending step: %d" % step] + describe_step(cl, il, step) +
             ["case: " + cl, "implementation output: " + il[:4000],
@@ -134,7 +144,7 @@ def main(tier, replay=None):
             it, mt = tokens_of(impl.get(key, "")), tokens_of(model.get(key, ""))
             j = next((k for k in range(min(len(it), len(mt))) if it[k] != mt[k]), min(len(it), len(mt)))
             f = case_by_key[key].split(" ")
-            ops = f[2:] if f[0] == "E" else f[5:]
+            ops = f[2:] if f[0] == "E" else (f[3:] if f[0] == "R" else f[5:])
             lines += ["case : " + case_by_key[key][:3000],
                       "first difference at step %d (op %s)" % (j, ops[j][:100] if j < len(ops) else "final state"),
                       "impl : " + (it[j][:200] if j < len(it) else impl.get(key, "")[-200:]),
@@ -147,7 +157,7 @@ def main(tier, replay=None):
     for key, cl in case_by_key.items():
         stream = key.split(" ")[1].rstrip("0123456789_")
         kinds[stream] = kinds.get(stream, 0) + 1
-        ops_total += len(cl.split(" ")) - (2 if cl[0] == "E" else 5)
+        ops_total += len(cl.split(" ")) - {"E": 2, "R": 3}.get(cl[0], 5)
         if nontrivial(cl, model.get(key, "")):
             nt.add(cl.split(" ", 2)[2])
     samples = []
